@@ -615,11 +615,11 @@ func (e *Engine) unop(fr *Frame, in *ssa.UnOp) {
 		e.recordAccess(p, false)
 		if p.Sym != nil {
 			a := e.st.arrayForRead(Ptr{Obj: p.Obj, Path: p.Path})
-			r := a.E[0].(*smt.Term)
-			for k := 1; k < len(a.E); k++ {
-				r = smt.Ite(smt.Eq(p.Sym, smt.BV(uint64(k), p.Sym.W)), a.E[k].(*smt.Term), r)
+			ts, ok := termsOf(a.E)
+			if !ok {
+				e.unsupported("load of non-scalar through symbolic index")
 			}
-			e.set(fr, in, r)
+			e.set(fr, in, iteChain(p.Sym, ts))
 			break
 		}
 		e.set(fr, in, e.st.load(p))
@@ -822,12 +822,11 @@ func (e *Engine) index(fr *Frame, in *ssa.Index) {
 		if !idx.IsConst() && len(c.E) > 0 {
 			if t0, ok := c.E[0].(*smt.Term); ok && len(c.E) <= 512 {
 				e.panicIf(smt.Not(smt.Cmp(smt.OpUlt, idx, smt.BV(uint64(len(c.E)), idx.W))), "index", fmt.Sprintf("index out of range with length %d", len(c.E)))
-				r := t0
-				for k := 1; k < len(c.E); k++ {
-					r = smt.Ite(smt.Eq(idx, smt.BV(uint64(k), idx.W)), c.E[k].(*smt.Term), r)
+				_ = t0
+				if ts, ok := termsOf(c.E); ok {
+					e.set(fr, in, iteChain(idx, ts))
+					return
 				}
-				e.set(fr, in, r)
-				return
 			}
 		}
 		i := e.boundsCheck(idx, len(c.E), "array")
@@ -842,11 +841,7 @@ func (e *Engine) index(fr *Frame, in *ssa.Index) {
 func (e *Engine) strIndex(c Str, idx *smt.Term) *smt.Term {
 	if !idx.IsConst() && len(c.B) > 0 && len(c.B) <= 512 {
 		e.panicIf(smt.Not(smt.Cmp(smt.OpUlt, idx, smt.BV(uint64(len(c.B)), idx.W))), "index", fmt.Sprintf("index out of range with length %d", len(c.B)))
-		r := c.B[0]
-		for k := 1; k < len(c.B); k++ {
-			r = smt.Ite(smt.Eq(idx, smt.BV(uint64(k), idx.W)), c.B[k], r)
-		}
-		return r
+		return iteChain(idx, c.B)
 	}
 	i := e.boundsCheck(idx, len(c.B), "string")
 	return c.B[i]
@@ -889,6 +884,52 @@ func (e *Engine) indexAddr(fr *Frame, in *ssa.IndexAddr) {
 	default:
 		e.unsupported("IndexAddr on %T", x)
 	}
+}
+
+// iteChain selects elems[idx] as a term. Elements equal to the most frequent constant become
+// the default, so sparse lookup tables (e.g. strings.asciiSpace) give short chains.
+func iteChain(idx *smt.Term, elems []*smt.Term) *smt.Term {
+	count := map[uint64]int{}
+	best, bestN := uint64(0), 0
+	for _, t := range elems {
+		if t.IsConst() {
+			count[t.Const()]++
+			if count[t.Const()] > bestN {
+				best, bestN = t.Const(), count[t.Const()]
+			}
+		}
+	}
+	var r *smt.Term
+	if bestN > 1 {
+		r = smt.BV(best, elems[0].W)
+		if elems[0].W == 0 {
+			r = smt.Bool(best == 1)
+		}
+	}
+	for k := len(elems) - 1; k >= 0; k-- {
+		t := elems[k]
+		if r != nil && bestN > 1 && t.IsConst() && t.Const() == best {
+			continue
+		}
+		if r == nil {
+			r = t
+			continue
+		}
+		r = smt.Ite(smt.Eq(idx, smt.BV(uint64(k), idx.W)), t, r)
+	}
+	return r
+}
+
+func termsOf(vs []Value) ([]*smt.Term, bool) {
+	out := make([]*smt.Term, len(vs))
+	for i, v := range vs {
+		t, ok := v.(*smt.Term)
+		if !ok {
+			return nil, false
+		}
+		out[i] = t
+	}
+	return out, true
 }
 
 // concPtr turns a symbolic-index pointer into a concrete one (one fork per feasible index).
